@@ -50,6 +50,17 @@ def rand_v6(rng):
     return ":".join(f"{g:x}" for g in gs)
 
 
+_POOL = {}
+
+
+def pool(ctx, width, kind, rng):
+    """a fixed sample of in-range values per field shape (for the random sequences)"""
+    key = (width, kind)
+    if key not in _POOL:
+        _POOL[key] = in_range_values(ctx, width, kind, rng)[:60]
+    return _POOL[key]
+
+
 def in_range_values(ctx, width, kind, rng):
     if kind == "bool":
         return ["t", "f"]
@@ -126,7 +137,8 @@ def cases(ctx):
             frame = P.build(shapes[host], rng)
             out.append(Case(P.pkt_line(frame, [f"S{path}.version={v}", f"G{path}.version", "W"]), ("read-only", prop)))
     # sequences of assignments on one packet
-    for _ in range(ctx.scale(1500, 60000)):
+    _POOL.clear()
+    for _ in range(ctx.scale(3000, 60000)):
         host = rng.choice(["eth-ipv4-udp", "eth-vlan-ipv4-udp", "eth-ipv6-udp", "eth-ipv4-tcp", "eth-ipv6-tcp", "eth-vlan-vlan-ipv4-udp"])
         layers = shapes[host]
         names = P.path_of(layers)
@@ -141,7 +153,7 @@ def cases(ctx):
                 v = rng.choice(bad_values(width, kind))
                 nbad += 1
             else:
-                v = rng.choice(in_range_values(ctx, width, kind, rng)[:60])
+                v = rng.choice(pool(ctx, width, kind, rng))
             steps.append(f"S{path}{prop}={v}")
             touched.append(f"G{path}{prop}")
             if rng.random() < 0.3:
